@@ -1,7 +1,7 @@
 (* C01 -- execution transparency.
    Layering: (1) the instrumented program under the model of the runtime IS the reference semantics of the
    source program (all MiniPy programs, all hook selections, all analyses, all data semantics with pure truth
-   tests, all fuel, all initial states), outside the four guard clauses; (2) each guard clause is refuted by a
+   tests that do not tell the two unbound-local exceptions apart, all fuel, all initial states), outside the guard clauses; (2) each guard clause is refuted by a
    concrete witness on which the implementation is run by every check; (3) names and operator codes of the
    models are the ones of the current source. *)
 From Coq Require Import String List Bool.
@@ -14,7 +14,7 @@ Import ListNotations.
 Theorem C01_instrumented_is_reference :
   forall (D : data) (analyses : list (analysis (Sem.earg (d_val D)))) (modpath : string)
          (H : list string) (p : program) (fuel : nat) (s : state D),
-    pure_truth D -> src_prog p = true -> ok_prog H p = true ->
+    pure_truth D -> unbound_reads_uniform D -> src_prog p = true -> ok_prog H p = true ->
     inst_run D analyses modpath H fuel p s = ref_run D analyses modpath H fuel p s.
 Proof. exact instrumented_is_reference. Qed.
 Print Assumptions C01_instrumented_is_reference.
@@ -22,7 +22,7 @@ Print Assumptions C01_instrumented_is_reference.
 Theorem C01_same_behaviour_as_reference :
   forall (D : data) (analyses : list (analysis (Sem.earg (d_val D)))) (modpath : string)
          (H : list string) (p : program) (fuel : nat) (s : state D),
-    pure_truth D -> src_prog p = true -> ok_prog H p = true ->
+    pure_truth D -> unbound_reads_uniform D -> src_prog p = true -> ok_prog H p = true ->
     behaviour D (inst_run D analyses modpath H fuel p s) = behaviour D (ref_run D analyses modpath H fuel p s).
 Proof. exact same_behaviour. Qed.
 Print Assumptions C01_same_behaviour_as_reference.
@@ -32,7 +32,7 @@ Print Assumptions C01_same_behaviour_as_reference.
 Theorem C01_transparency :
   forall (D : data) (analyses : list (analysis (Sem.earg (d_val D)))) (modpath : string)
          (H : list string) (p : program) (fuel : nat) (s : state D),
-    observing_analyses D analyses -> pure_truth D -> list_building_pure D ->
+    observing_analyses D analyses -> pure_truth D -> unbound_reads_uniform D -> list_building_pure D ->
     src_prog p = true -> ok_prog H p = true -> tk_prog H p = true ->
     visible D (inst_run D analyses modpath H fuel p s) = visible D (orig_run D analyses modpath fuel p s).
 Proof. exact instrumented_is_transparent. Qed.
@@ -50,8 +50,8 @@ Print Assumptions C01_reference_is_transparent.
 
 (* the hypotheses are satisfiable: a data semantics with pure truth tests and pure list building exists, and the
    concrete data semantics of the correspondence check meets the hypotheses of the second theorem *)
-Example C01_pure_truth_inhabited : pure_truth tdata /\ list_building_pure tdata.
-Proof. exact (conj tdata_pure_truth tdata_list_pure). Qed.
+Example C01_pure_truth_inhabited : pure_truth tdata /\ unbound_reads_uniform tdata /\ list_building_pure tdata.
+Proof. exact (conj tdata_pure_truth (conj tdata_unbound_uniform tdata_list_pure)). Qed.
 Example C01_concrete_data_meets_reference_hypotheses : forall fn, list_building_pure (cdata fn) /\ bool_truth (cdata fn).
 Proof. intros fn. exact (conj (cdata_list_pure fn) (cdata_bool_truth fn)). Qed.
 
@@ -69,17 +69,30 @@ Proof. exact w_aug_assign_not_transparent. Qed.
 Theorem C01_refuted_truth_retest :
   behaviour_eqb (run_inst 40 h_truth_retest a_truth_retest false w_truth_retest) (run_orig 40 w_truth_retest) = false.
 Proof. exact w_truth_retest_not_transparent. Qed.
+(* the premise unbound_reads_uniform is needed: on the concrete data semantics (which, like CPython, tells the NameError
+   of a read through `lambda: u` from UnboundLocalError) the instrumented program is not transparent, and the
+   concrete data semantics does not meet the premise *)
+Theorem C01_refuted_unbound_local_thunk :
+  behaviour_eqb (run_inst 40 h_unbound_local_thunk a_unbound_local_thunk false w_unbound_local_thunk) (run_orig 40 w_unbound_local_thunk) = false
+  /\ src_prog w_unbound_local_thunk = true /\ ok_prog h_unbound_local_thunk w_unbound_local_thunk = true
+  /\ ~ unbound_reads_uniform (cdata (fnames_of w_unbound_local_thunk)).
+Proof.
+  split; [exact w_unbound_local_thunk_not_transparent|]. split; [exact w_unbound_local_thunk_is_source|].
+  split; [vm_compute; reflexivity|]. intros Hu. specialize (Hu "u" (DV.Concrete.CPrims.w0 [])). vm_compute in Hu. discriminate Hu.
+Qed.
 Print Assumptions C01_refuted_truth_retest.
+Print Assumptions C01_refuted_unbound_local_thunk.
 
 (* the reference semantics itself is transparent on the witnesses *)
 Theorem C01_reference_transparent_on_witnesses :
   behaviour_eqb (run_ref 40 h_chain_eager a_chain_eager false w_chain_eager) (run_orig 40 w_chain_eager) = true
   /\ behaviour_eqb (run_ref 40 h_assert_msg_eager a_assert_msg_eager false w_assert_msg_eager) (run_orig 40 w_assert_msg_eager) = true
   /\ behaviour_eqb (run_ref 40 h_aug_assign a_aug_assign false w_aug_assign) (run_orig 40 w_aug_assign) = true
-  /\ behaviour_eqb (run_ref 40 h_truth_retest a_truth_retest false w_truth_retest) (run_orig 40 w_truth_retest) = true.
+  /\ behaviour_eqb (run_ref 40 h_truth_retest a_truth_retest false w_truth_retest) (run_orig 40 w_truth_retest) = true
+  /\ behaviour_eqb (run_ref 40 h_unbound_local_thunk a_unbound_local_thunk false w_unbound_local_thunk) (run_orig 40 w_unbound_local_thunk) = true.
 Proof.
   exact (conj w_chain_eager_reference_transparent (conj w_assert_msg_eager_reference_transparent
-        (conj w_aug_assign_reference_transparent w_truth_retest_reference_transparent))).
+        (conj w_aug_assign_reference_transparent (conj w_truth_retest_reference_transparent w_unbound_local_thunk_reference_transparent)))).
 Qed.
 
 (* the runs compared with the implementation by the correspondence check are these runs, instantiated *)
